@@ -355,7 +355,13 @@ def _wc_self(ex, env):
             break
     cls, bases = _WC_KINDS[kind]
     log = env['log']
-    log.fields['isValueConstraint'] = kind == 3
+    # a value constraint, or a set made of value constraints only (`((1..5))`, `ALL EXCEPT (SIZE (1..2))`)
+    holds_presence = Bool('set.holdsPresenceConstraint')
+    log.fields['isValueConstraint'] = (kind == 3) if kind not in (2, 4) else z3.Not(holds_presence)
+
+    def sees_absence(ex2, self_, constraint):
+        # callee WithComponentsConstraint._seesAbsence
+        return True if kind in (0, 1) else (False if kind == 3 else holds_presence)
 
     def call(ex2, self_, v, idx=None):
         log.fields['called'] = True
@@ -364,7 +370,7 @@ def _wc_self(ex, env):
             raise _Raise(ExcV('ValueConstraintError'))
         return None
     c = Obj(cls, {}, {'__call__': call, '__isinstance__': lambda ex2, self_, nm: nm == cls or nm in bases}, name='constraint')
-    return Obj('WithComponentsConstraint', {'_values': Tup([Tup(['field', c])])}, name='self')
+    return Obj('WithComponentsConstraint', {'_values': Tup([Tup(['field', c])])}, {'_seesAbsence': sees_absence}, name='self')
 
 
 _present = 'member_stored and member_isValue'
@@ -382,7 +388,7 @@ WITH_COMPONENTS = Contract(
         # X.680 51.8: a value constraint on a component applies when the component is present; it is never shown "no value"
         ('value-constraints-see-present-members-only', '(log.isValueConstraint and not (%s)) ==> not log.called' % _present),
         ('otherwise-the-constraint-decides', '(not log.isValueConstraint or (%s)) ==> (log.called and admits)' % _present),
-        # presence constraints (and sets, which may hold them) see an absent member -- also a placeholder -- as None
+        # presence constraints (and sets that hold one) see an absent member -- also a placeholder -- as None
         ('absent-is-none', '(log.called and not (%s)) ==> log.arg is None' % _present),
         ('present-is-the-member', '(log.called and (%s)) ==> log.arg is not None' % _present)],
     raises={'ValueConstraintError': '(not log.isValueConstraint or (%s)) and not admits' % _present},
@@ -395,7 +401,7 @@ CONTRACTS.append(WITH_COMPONENTS)
 # ---- ... for any number of (field, constraint) entries ------------------------------------------------------------------------
 WC_STORED = z3.Function('member.stored', _I, z3.BoolSort())          # by field token: a slot holds something
 WC_ISVAL = z3.Function('member.isValue', _I, z3.BoolSort())          # ... which is a value (not a read's placeholder)
-WC_PRESENCE = z3.Function('constraint.isPresenceOrSet', _I, z3.BoolSort())   # by constraint token: PRESENT / ABSENT / a set
+WC_PRESENCE = z3.Function('constraint.seesAbsence', _I, z3.BoolSort())   # by constraint token: PRESENT / ABSENT / a set holding one
 WC_ADMITS = z3.Function('constraint.admitsMember', _I, z3.BoolSort())        # what the constraint says of what it is shown
 
 
@@ -449,7 +455,9 @@ WITH_COMPONENTS_N = Contract(
     qual='WithComponentsConstraint._testValue', properties=P + ['C08'],
     params=dict(fields=_PIntTuple(), constraints=_PIntTuple(),
                 self=PDerived(lambda ex, env: Obj('WithComponentsConstraint', {
-                    '_values': _Entries([env['fields'].z, env['constraints'].z], names=None)}, name='self')),
+                    '_values': _Entries([env['fields'].z, env['constraints'].z], names=None)}, {
+                    # callee WithComponentsConstraint._seesAbsence(constraint): PRESENT / ABSENT / a set that holds one
+                    '_seesAbsence': lambda ex2, self_, c: WC_PRESENCE(_toint(c.fields['__id__']))}, name='self')),
                 value=PDerived(_wcn_value), idx=PConst(None)),
     globals={'ok_upto': FnV(lambda ex, seq, upto: _wc_ok_upto(ex, seq, upto), 'ok_upto'),
              'entries': FnV(lambda ex: None, 'entries'),
@@ -464,8 +472,64 @@ WITH_COMPONENTS_N = Contract(
     raise_ensures={'ValueConstraintError': ['not ok_upto(self._values, len(fields))']},
     may_raise={'ValueConstraintError': True},
     note='an entry is satisfied when its constraint admits what it is shown, or when it is a value constraint and the member is '
-         'absent (not stored, or a placeholder): value constraints are not consulted then; presence constraints and sets are '
-         'shown None for an absent member (obligation entry-shown-the-right-thing)')
+         'absent (not stored, or a placeholder): value constraints -- sets of value constraints included -- are not consulted '
+         'then; presence constraints and sets that hold one are shown None for an absent member (obligation '
+         'entry-shown-the-right-thing; which constraints those are: callee _seesAbsence)')
 CONTRACTS.append(WITH_COMPONENTS_N)
+
+
+# ---- which constraints are shown the absence of a component: PRESENT, ABSENT, and sets that hold one (recursive) --------------
+SEES = z3.Function('operand.seesAbsence', _I, z3.BoolSort())       # the callee's answer for an operand (this same contract)
+_SA_KINDS = (('ComponentPresentConstraint', ('AbstractConstraint',)), ('ComponentAbsentConstraint', ('AbstractConstraint',)),
+             ('ConstraintsUnion', ('AbstractConstraintSet', 'AbstractConstraint')),
+             ('ConstraintsIntersection', ('AbstractConstraintSet', 'AbstractConstraint')),
+             ('ConstraintsExclusion', ('AbstractConstraint',)), ('ValueSizeConstraint', ('AbstractConstraint',)),
+             ('WithComponentsConstraint', ('AbstractConstraint',)))
+
+
+class _SaOperands(_RecSeqV):
+    def elem(self, i):
+        return Obj('AbstractConstraint', {'__id__': self.cols[0][i]}, name='operand')
+
+
+def _sa_constraint(ex, env):
+    kind = len(_SA_KINDS) - 1
+    for k in range(len(_SA_KINDS) - 1):
+        if ex.choose(Bool('constraint.kind%d' % k), 'kind-%s' % _SA_KINDS[k][0]):
+            kind = k
+            break
+    cls, bases = _SA_KINDS[kind]
+    env['log'].fields['kind'] = kind
+    return Obj(cls, {'_values': _SaOperands([env['operands'].z], names=('__id__',))},
+               {'__isinstance__': lambda ex2, self_, nm: nm == cls or nm in bases}, name='constraint')
+
+
+def _none_sees(ex, ops, upto):
+    z = ops.cols[0] if isinstance(ops, _RecSeqV) else ops.z
+    return z3.ForAll([_q], z3.Implies(z3.And(_q >= 0, _q < _toint(upto)), z3.Not(SEES(z[_q]))))
+
+
+SEES_ABSENCE = Contract(
+    id='type.constraint::WithComponentsConstraint._seesAbsence', file=F, qual='WithComponentsConstraint._seesAbsence',
+    properties=P + ['C08'],
+    params=dict(log=PDerived(lambda ex, env: Obj('log', {'kind': None}, name='log')), operands=_PIntTuple(),
+                cls=PConst(Obj('type', {}, {'_seesAbsence': lambda ex, self_, operand: SEES(_toint(operand.fields['__id__']))},
+                               name='cls')),
+                constraint=PDerived(_sa_constraint)),
+    globals={'none_sees': FnV(_none_sees, 'none_sees'),
+             'ComponentPresentConstraint': _ClassV('ComponentPresentConstraint'),
+             'ComponentAbsentConstraint': _ClassV('ComponentAbsentConstraint'),
+             'AbstractConstraintSet': _ClassV('AbstractConstraintSet'),
+             'ConstraintsExclusion': _ClassV('ConstraintsExclusion')},
+    loops={0: _Loop(index='k', invariant=['none_sees(loop_seq, k)'])},
+    ensures=[
+        ('presence-constraints-do', 'log.kind in (0, 1) ==> result is True'),
+        ('a-set-does-iff-one-of-its-operands-does', 'log.kind in (2, 3, 4) ==> '
+                                                    '((result is True) == (not none_sees(operands, len(operands))) and '
+                                                    '(result is True or result is False))'),
+        ('value-constraints-do-not', 'log.kind in (5, 6) ==> result is False')],
+    note='the recursive call is this contract (an uninterpreted answer per operand): sets of any size and depth; an inner '
+         'WITH COMPONENTS, SIZE, range, ... are value constraints')
+CONTRACTS.append(SEES_ABSENCE)
 for _c in CONTRACTS[-1:]:
     pass
